@@ -274,3 +274,48 @@ Proof.
   apply sorted_same_elements; try assumption. intros z. rewrite I, I'. unfold futs_of. split; intros (r & t & Ir & Et & Iz); exists r, t; (split; [now apply Same|auto]).
 Qed.
 End Order.
+(* ---------------- where the auxiliary future atoms occur (the cleanliness hypotheses of Spec/DefElim.v for the rewritten program) ---------------- *)
+Section Shape.
+Variable A : Type.
+Definition plain_atom (q : qatom A) : bool := match q with QU _ _ _ | QI _ | QF _ => true | _ => false end.
+Lemma tr_blit_plain sh l y m : tr_blit A sh l = Some (y, m) -> plain_atom (snd y) = true.
+Proof.
+  destruct l as [s b]. destruct b as [a lead trail|a| |]; cbn [tr_blit].
+  - destruct (decide sh (BodyLit (is_pos s)) lead 1 trail false) as [[|] la ts tz| | |]; try discriminate. intros E. injection E as <- _. reflexivity.
+  - destruct (decide sh (BodyLit (is_pos s)) 0 1 0 true) as [[|] la ts tz| | |]; try discriminate. intros E. injection E as <- _. reflexivity.
+  - intros E. injection E as <- _. reflexivity.
+  - intros E. injection E as <- _. reflexivity.
+Qed.
+Lemma tr_body_plain sh : forall l bd m, tr_body A sh l = Some (bd, m) -> forallb (fun y => plain_atom (snd y)) bd = true.
+Proof.
+  induction l as [|x l IH]; intros bd m E; cbn [tr_body] in E; [injection E as <- _; reflexivity|].
+  destruct (tr_blit A sh x) as [[y m1]|] eqn:Ex; [|discriminate]. destruct (tr_body A sh l) as [[ys m2]|] eqn:El; [|discriminate]. injection E as <- _.
+  cbn [forallb]. now rewrite (tr_blit_plain sh x y m1 Ex), (IH ys m2 eq_refl).
+Qed.
+(* in an accepted rule the bodies mention ordinary atoms and the two markers only - never an auxiliary `__future_` atom; a normal rule whose head has
+   n > 0 trailing primes gets the head `__future_p(n, __t+n)`, without primes the head `p(__t)`; other heads are unchanged *)
+Theorem accepted_rule_shape (r : frule A) t : transform_rule A r = Some t ->
+  forallb (fun y => plain_atom (snd y)) (qb A (t_rule A t)) = true /\
+  match fh A r with
+  | FNorm _ a n => qh A (t_rule A t) = QHAtom A (if 0 <? n then QFut A a n (QRel (Z.of_nat n)) else QU A a (QRel 0%Z)) /\ t_fut A t = (if 0 <? n then [(a, n)] else [])
+  | FDisj _ l => qh A (t_rule A t) = QHDisj A l /\ t_fut A t = []
+  | FChoice _ l => qh A (t_rule A t) = QHChoice A l /\ t_fut A t = []
+  | FCons _ => qh A (t_rule A t) = QHCons A /\ t_fut A t = []
+  end.
+Proof.
+  unfold transform_rule. destruct (tr_head A (fh A r)) as [[hd fut]|] eqn:Eh; [|discriminate]. destruct (tr_body A (shape_of A (fh A r)) (fb A r)) as [[bd m]|] eqn:Eb; [|discriminate].
+  intros E. injection E as <-. cbn [t_rule t_fut qb qh]. split.
+  - rewrite forallb_app, (tr_body_plain _ _ _ _ Eb). destruct (is_final (fp A r)); reflexivity.
+  - destruct (fh A r) as [a n|l|l|] eqn:Hh; cbn [tr_head] in Eh.
+    + destruct (decide (shape_of A (FNorm A a n)) HeadLit 0 1 n false) as [ren la ts tz| | |] eqn:Dd; try discriminate. destruct la; [discriminate|].
+      destruct (decide_accept _ _ _ _ _ _ _ _ _ _ Dd) as (Ets & Etz & Er & _). cbn [head_before lit_nosign shape_of nosign andb] in Er. rewrite andb_true_r in Er.
+      injection Eh as <- <-. rewrite Etz, andb_false_r. cbn [tr_time]. rewrite Ets, Er.
+      replace (Z.of_nat n - Z.of_nat 0)%Z with (Z.of_nat n) by lia.
+      destruct (Nat.ltb_spec 0 n) as [L|L].
+      * assert ((0 <? Z.of_nat n)%Z = true) as -> by (apply Z.ltb_lt; lia). split; reflexivity.
+      * assert (n = 0) as -> by lia. split; reflexivity.
+    + destruct (plain_elem (shape_of A (FDisj A l))); [|discriminate]. injection Eh as <- <-. split; reflexivity.
+    + destruct (plain_elem (shape_of A (FChoice A l))); [|discriminate]. injection Eh as <- <-. split; reflexivity.
+    + injection Eh as <- <-. split; reflexivity.
+Qed.
+End Shape.
